@@ -33,6 +33,14 @@ def _typed_coerce(
     return _coerce
 
 
+def _parse_bool(value: Any) -> bool:
+    if isinstance(value, (list, tuple)):
+        raise ValueError('Boolean cannot represent list value "%s"' % value)
+    if isinstance(value, dict):
+        raise ValueError('Boolean cannot represent object value "%s"' % value)
+    return bool(value)
+
+
 _coerce_bool_node = _typed_coerce(bool, _ast.BooleanValue)
 
 
@@ -40,7 +48,7 @@ Boolean = ScalarType(
     "Boolean",
     description="The `Boolean` scalar type represents `true` or `false`.",
     serialize=bool,
-    parse=bool,
+    parse=_parse_bool,
     parse_literal=_coerce_bool_node,
 )
 
@@ -164,6 +172,14 @@ String = ScalarType(
     parse_literal=_coerce_string_node,
 )  # type: ScalarType
 
+def _parse_id(value: Any) -> str:
+    if isinstance(value, (list, tuple)):
+        raise ValueError('ID cannot represent list value "%s"' % value)
+    if isinstance(value, dict):
+        raise ValueError('ID cannot represent object value "%s"' % value)
+    return str(value)
+
+
 _coerce_id_node = _typed_coerce(str, _ast.StringValue, _ast.IntValue)
 
 
@@ -178,7 +194,7 @@ ID = ScalarType(
         "an ID."
     ),
     serialize=str,
-    parse=str,
+    parse=_parse_id,
     parse_literal=_coerce_id_node,
 )
 
